@@ -1522,8 +1522,14 @@ def _table_loop_maps (s, prev, known_locals, fn_locals):
     if isinstance(e, ast.Constant): return True
     if isinstance(e, (ast.Tuple, ast.List)): return all(_pure_row(x, d + 1) for x in e.elts)
     if isinstance(e, ast.Attribute): return _pure_row(e.value, d + 1)
-    return isinstance(e, ast.Name) and e.id not in fn_locals
+    # a local of the function may stand in a row when the loop body does not re-bind it (the row is built once, before the first pass)
+    return isinstance(e, ast.Name) and (e.id not in fn_locals or e.id not in body_stores)
+  body_stores = set(x.id for b in s.body for x in ast.walk(b) if isinstance(x, ast.Name) and isinstance(x.ctx, (ast.Store, ast.Del))) | \
+                set(x.id for x in ast.walk(s.target) if isinstance(x, ast.Name))
   it = s.iter
+  if isinstance(it, ast.Call) and isinstance(it.func, ast.Name) and it.func.id == 'enumerate' and len(it.args) == 1 and not it.keywords and isinstance(it.args[0], (ast.Tuple, ast.List)):
+    # enumerate(<literal table>): the row index is a constant per row
+    it = ast.Tuple(elts=[ast.Tuple(elts=[ast.Constant(value=k_), r_], ctx=ast.Load()) for k_, r_ in enumerate(it.args[0].elts)], ctx=ast.Load())
   rows = None
   if table(it) and not (all(isinstance(e, ast.Constant) for e in it.elts)):
     rows = [e for e in it.elts]
